@@ -21,6 +21,11 @@
 #include <opentelemetry/sdk/logs/logger_config.h>
 #include <opentelemetry/sdk/logs/logger_context.h>
 #include <opentelemetry/sdk/logs/logger_provider.h>
+#include <opentelemetry/sdk/logs/logger_provider_factory.h>
+#include <opentelemetry/sdk/metrics/meter_context.h>
+#include <opentelemetry/sdk/metrics/meter_provider_factory.h>
+#include <opentelemetry/sdk/trace/tracer_context.h>
+#include <opentelemetry/sdk/trace/tracer_provider_factory.h>
 #include <opentelemetry/sdk/logs/read_write_log_record.h>
 #include <opentelemetry/sdk/logs/simple_log_record_processor.h>
 #include <opentelemetry/sdk/metrics/meter_config.h>
@@ -167,9 +172,36 @@ struct Fixture {
   std::vector<std::unique_ptr<Holder>> instruments;
   int last_kind = 0;
 
-  Fixture(int sig, const std::vector<Rule> &rules, bool dflt) : signal(sig) {
+  // `ctor`: which way the provider is constructed (every public constructor and the factories take the configurator and must
+  // honour it): 0 = the path used since the first version of this harness; the others rotate with the rule list
+  Fixture(int sig, const std::vector<Rule> &rules, bool dflt, int ctor = 0) : signal(sig) {
     const auto &res = ot::sdk::resource::Resource::GetEmpty();
-    if (sig == 0)
+    if (sig == 0 && ctor % 4 != 0) {
+      std::unique_ptr<st::SpanProcessor> proc(new st::SimpleSpanProcessor(std::unique_ptr<st::SpanExporter>(new SpanSink(&sink))));
+      std::vector<std::unique_ptr<st::SpanProcessor>> procs;
+      procs.emplace_back(std::move(proc));
+      std::unique_ptr<st::Sampler> sampler(new st::AlwaysOnSampler);
+      std::unique_ptr<st::IdGenerator> idgen(new st::RandomIdGenerator());
+      auto conf = build_configurator<st::TracerConfig>(rules, dflt);
+      if (ctor % 4 == 1) tp.reset(new st::TracerProvider(std::move(procs), res, std::move(sampler), std::move(idgen), std::move(conf)));
+      else if (ctor % 4 == 2) tp.reset(new st::TracerProvider(std::unique_ptr<st::TracerContext>(new st::TracerContext(std::move(procs), res, std::move(sampler), std::move(idgen), std::move(conf)))));
+      else tp.reset(static_cast<st::TracerProvider *>(st::TracerProviderFactory::Create(std::move(procs), res, std::move(sampler), std::move(idgen), std::move(conf)).release()));
+    } else if (sig == 1 && ctor % 3 != 0) {
+      std::unique_ptr<sm::ViewRegistry> views(new sm::ViewRegistry());
+      auto conf = build_configurator<sm::MeterConfig>(rules, dflt);
+      if (ctor % 3 == 1) mp.reset(new sm::MeterProvider(std::unique_ptr<sm::MeterContext>(new sm::MeterContext(std::move(views), res, std::move(conf)))));
+      else mp.reset(static_cast<sm::MeterProvider *>(sm::MeterProviderFactory::Create(std::move(views), res, std::move(conf)).release()));
+      reader = std::make_shared<PullReader>();
+      mp->AddMetricReader(reader);
+    } else if (sig == 2 && ctor % 4 != 0) {
+      std::vector<std::unique_ptr<sl::LogRecordProcessor>> procs;
+      procs.emplace_back(new sl::SimpleLogRecordProcessor(std::unique_ptr<sl::LogRecordExporter>(new LogSink(&sink))));
+      auto conf = build_configurator<sl::LoggerConfig>(rules, dflt);
+      if (ctor % 4 == 1) lp.reset(new sl::LoggerProvider(std::move(procs[0]), res, std::move(conf)));
+      else if (ctor % 4 == 2) lp.reset(new sl::LoggerProvider(std::move(procs), res, std::move(conf)));
+      else lp.reset(static_cast<sl::LoggerProvider *>(sl::LoggerProviderFactory::Create(std::move(procs), res, std::move(conf)).release()));
+      lctx = lp->context_.get();
+    } else if (sig == 0)
       tp.reset(new st::TracerProvider(std::unique_ptr<st::SpanProcessor>(new st::SimpleSpanProcessor(std::unique_ptr<st::SpanExporter>(new SpanSink(&sink)))), res,
                                       std::unique_ptr<st::Sampler>(new st::AlwaysOnSampler), std::unique_ptr<st::IdGenerator>(new st::RandomIdGenerator()),
                                       build_configurator<st::TracerConfig>(rules, dflt)));
@@ -279,7 +311,11 @@ void run_configurator(vf::Ctx &c) {
     desc += std::string(", instruments Create") + kKinds[kind].label;
   }
   c.stage("build-provider");
-  Fixture fx(signal, rules, dflt);
+  // the construction path rotates with the rule list (no extra choice): every path meets enabling and disabling rule lists
+  int ctor = (int)rules.size() + (dflt ? 0 : 1);
+  for (auto &r : rules) ctor += r.matcher + (r.enable ? 2 : 0);
+  desc += vf::sfmt(", provider construction path %d", ctor % (signal == 1 ? 3 : 4));
+  Fixture fx(signal, rules, dflt, ctor);
   c.step();
   std::vector<std::string> want;
   std::vector<const void *> first;
